@@ -103,11 +103,13 @@ const char* sched_name(const void* addr, char* buf)
     if(a == (const char*)p->_enqueuedSignal._signal.cdata) return "enq.c";
     if(a == (const char*)&p->_pushedJobs) return "pushed";
     if(a == (const char*)&p->_processedJobs) return "processed";
+    if(a == (const char*)&p->_threadCount) return "threadcount";
     if(a == (const char*)&p->_mutex) return "pool.m";
     for(usize i = 0; i < p->_queue._capacity; ++i)
     {
       if(a == (const char*)&p->_queue._queue[i].head) { sprintf(buf, "slot%d.head", (int)i); return buf; }
       if(a == (const char*)&p->_queue._queue[i].tail) { sprintf(buf, "slot%d.tail", (int)i); return buf; }
+      if(a == (const char*)&p->_queue._queue[i].data) { sprintf(buf, "slot%d.data", (int)i); return buf; }
     }
   }
   return "?";
@@ -198,6 +200,11 @@ static int runScenario(char* line)
     s = nb ? nb + 1 : 0;
   }
   sched_reset((unsigned long long)seed, pol, pre, npre, maxsteps, sp, tick);
+#ifdef NSTD_VERIF_FUTURE_HOOKS
+  printf("H 1\n");   // the library sources carry the yield hooks at plain accesses (fixes/future/hook-0001-*.patch)
+#else
+  printf("H 0\n");
+#endif
   for(int k = 0; k < NF; ++k) { new (fiMem[k]) Future<int>; new (fvMem[k]) Future<void>; }
   if(!lazy)
   {
